@@ -128,6 +128,8 @@ class MayRaise:
         def length_of(t, depth=0):
             if t[0] == "call" and t[2] == ("attr", ("self",), prim.name) and len(t[3]) == 1 and is_const(t[3][0]) and isinstance(t[3][0][1], int):
                 return t[3][0][1]
+            if t[0] == "param" and getattr(self, "_cur_q", None) and (self._cur_q, t[1]) in self._param_len and self._param_len[(self._cur_q, t[1])] > 0:
+                return self._param_len[(self._cur_q, t[1])]  # at least that many bytes at every call site
             if t[0] == "loopout" and len(t) == 3 and depth < 3 and getattr(self, "_cur_se", None) is not None:
                 # the value a `while True` loop leaves in a variable: what the variable holds at its breaks
                 info = self._cur_se.loop_info.get(t[1]) or {}
@@ -182,6 +184,7 @@ class MayRaise:
 
     def _subscripts(self, f: FuncInfo):
         records = []
+        self._cur_q = f.qualname
 
         def hook(node, base, idx, st, trys, handler):
             records.append((node, base, idx, st.dnf))
@@ -190,7 +193,8 @@ class MayRaise:
             kw = {}
             if f.cls:
                 kw["frozen_fields"] = self.eng.init_only_fields(f"{f.module}.{f.cls}")
-            SymEval(self.eng.ce, f, on_index=hook, inline=self.eng.inline_policy, **kw).run()
+            pl = self.eng.param_lengths(f.qualname) if (f.cls and f.name.startswith("_") and not f.name.startswith("__")) else None
+            SymEval(self.eng.ce, f, on_index=hook, inline=self.eng.inline_policy, param_len=pl, **kw).run()
         except Exception:
             return
         per_node = {}
